@@ -59,9 +59,9 @@ SCENARIOS = {
     "q_chain": dict(td=("t1",), tags=(), en=("e1",), k=("k1",), ffis=3, per=1),
     "sanity": dict(td=("t1",), tags=(), en=("e1",), k=(), ffis=2, per=1),
     # thorough
-    "chain3": dict(td=("t1", "t2"), tags=("s1",), en=("e1",), k=("k1",), ffis=3, per=2),
-    "pair3": dict(td=("t1", "t2"), tags=("s1", "s2"), en=("e1",), k=("k1",), fn=("f1",), feat=("fwd", "union"), ffis=2, per=3),
-    "rich": dict(td=("t1", "t2"), tags=("s1",), en=("e1",), k=(), fn=("f1",), gv=("g1",), feat=("anon", "fnp"), ffis=2, per=2),
+    "pair_en": dict(td=("t1",), tags=("s1",), en=("e1",), k=(), ffis=2, per=2),
+    "chain3b": dict(td=("t1",), tags=("s1",), en=("e1",), k=(), ffis=3, per=1),
+    "pair_k": dict(td=("t1",), tags=(), en=("e1",), k=("k1",), gv=("g1",), ffis=2, per=2),
 }
 
 
@@ -289,7 +289,7 @@ def run(ctx):
     quick = ctx.quick
     jobs = int(os.environ.get("VERIF_JOBS", "8"))
     libpath = mg.build_pool_lib(core, ctx.tmp)
-    scen = ["q_pair", "q_fn", "q_chain"] if quick else ["q_pair", "q_fn", "q_chain", "chain3", "pair3", "rich"]
+    scen = ["q_pair", "q_fn", "q_chain"] if quick else ["q_pair", "q_fn", "q_chain", "pair_en", "chain3b", "pair_k"]
 
     def tlc_job(name):
         r = core.tlc("CdefInc", cfg_text=cfg(emit=True, **SCENARIOS[name]), workers=1, timeout=1700)
@@ -373,6 +373,9 @@ def replay(ctx, obj):
     ctx.cov["states"] = 1
     V = v[(1, rp["mode"])][0]
     for clause, item, cls in sorted(V):
+        if clause == "guard":
+            print("the recorded chain is refused by the specification's guards (action %s): it says nothing about cffi" % item)
+            continue
         print("mode %s clause %s item %s class %r" % (rp["mode"], clause, item, cls))
         ctx.violation(cls if cls else "%s:%s:unexplained" % (rp["mode"], clause), CLAUSE.get(clause, clause), rp)
     print("replayed: %s" % ("still violated" if V else "accepted by the specification"))
